@@ -37,7 +37,9 @@ def run_stream(ctx, r, idx):
 			cmd(i, "SETFORMAT %d" % r.choice((0, 1))) and
 			# (a sender's timing advance and attenuation and the recipient's simulated values are none of a NOPE's business)
 			cmd(i, "SETTA %d" % r.choice((0, 0, 1, 5, 63))) and cmd(i, "SETPOWER %d" % r.choice((0, 0, 10))) and
-			cmd(i, "FAKE_TOA %d 0" % r.choice((0, 0, 100, -300))) and cmd(i, "FAKE_CI %d 0" % r.choice((90, 90, 40)))):
+			cmd(i, "FAKE_TOA %d 0" % r.choice((0, 0, 100, -300))) and cmd(i, "FAKE_CI %d 0" % r.choice((90, 90, 40))) and
+			# (a simulated level below the noise level is legal down to -120: the NOPE indication still carries the noise level)
+			(r.random() < 0.7 or cmd(i, "FAKE_RSSI %d 0" % r.choice((-116, -120, -111, -60))))):
 			return
 	for i in range(n):
 		if not bench.models[i].running and not cmd(i, "POWERON"):
